@@ -105,7 +105,7 @@ fn format_field(
         let field_name = to_ts_ident(field.ident.as_ref().unwrap());
         let name = match (field_attr.rename.as_ref(), rename_all) {
             (Some(rn), _) => rn.to_owned(),
-            (None, Some(rn)) => rn.apply(&field_name),
+            (None, Some(rn)) => rn.apply_to_field(&field_name),
             (None, None) => field_name,
         };
         let valid_name = raw_name_to_ts_field(name);
@@ -171,7 +171,7 @@ fn format_field(
     let field_name = to_ts_ident(field.ident.as_ref().unwrap());
     let name = match (field_attr.rename, rename_all) {
         (Some(rn), _) => rn,
-        (None, Some(rn)) => rn.apply(&field_name),
+        (None, Some(rn)) => rn.apply_to_field(&field_name),
         (None, None) => field_name,
     };
     let valid_name = raw_name_to_ts_field(name);
